@@ -392,8 +392,11 @@ fn parent(family: &str, tier: &str, progs: &[Program], merge: Option<String>) ->
                 "wall_s": (wall * 1000.0).round() / 1000.0,
                 "violations": n_viol,
             });
+            // a family that only contributes the schedule part of another property's check must not
+            // replace that property's evidence when it is run on its own
+            let path = if family == prop { format!("{VERIF}/evidence/{prop}.json") } else { format!("{VERIF}/loomx/target/standalone-{family}.json") };
             std::fs::create_dir_all(format!("{VERIF}/evidence")).unwrap();
-            std::fs::write(format!("{VERIF}/evidence/{prop}.json"), serde_json::to_string_pretty(&ev).unwrap() + "\n").unwrap();
+            std::fs::write(path, serde_json::to_string_pretty(&ev).unwrap() + "\n").unwrap();
         }
         Some(path) => {
             // merge into the evidence written by the sequential engine for the same property
